@@ -352,6 +352,23 @@ def step (w : World) (j : Json) : World × List String :=
                       statuses := if sts.isEmpty then none else some sts }
     let (v, w') := verifyFull env true w c (jStr j "kind" == "nutsorg")
     (w', ["vverify " ++ verdictStr v])
+  -- third harness (vcr, ambassador): a revocation event delivered by the network, with injected store faults
+  | "areset" => ({ a := { base := bases[0]! }, b := { base := "https://verifier.example" } }, ["areset"])
+  | "adeliver" =>
+    let issuer := jStr j "issuer"
+    let r : Revocation := { subject := jStr j "subject", issuer := issuer, date := some 1
+                            proof := some { vm := issuer ++ "#k1", sig := "sig:" ++ issuer ++ "#k1" } }
+    let fault : StoreFault := match jStr j "fault" with
+      | "" => .none
+      | "other" => .other
+      | _ => .transient (jNat j "wraps" + 1)      -- RegisterRevocation wraps once more
+    let (o, n') := handleRevocationEvent keyEnv w.b r fault
+    ({ w with b := n' }, ["adeliver " ++ (match o with | .done => "done" | .retry => "retry" | .fatal => "fatal")])
+  | "averify" =>
+    let id := jStr j "id"
+    let c : Cred := { id := some id, issuer := prefixOf id, statuses := none }
+    let (v, w') := verifyFull env true w c false
+    (w', ["averify " ++ verdictStr v])
   | "vhost" =>
     let url := jStr j "url"
     let kind := jStr j "hostkind"
